@@ -12,5 +12,5 @@ Separate Extraction MuXferModel.xstep MuXferModel.xstep_thr MuXferModel.xbegin M
   MuModel.word MuModel.queue MuModel.get MuModel.waiting MuModel.sem
   MuXferReplay.xpush_op MuXferReplay.xinit_n MuXferReplay.xpc_code MuXferReplay.mu_busy MuXferReplay.held_of
   MuXferReplay.v_target MuXferReplay.mu_sem_pc MuXferReplay.is_desig_entry MuXferReplay.mu_spin_free
-  MuXferReplay.mu_queue MuXferReplay.mu_word MuXferReplay.nrets MuXferReplay.last_ret_ok MuXferReplay.xferred_of
+  MuXferReplay.mu_queue MuXferReplay.mu_word MuXferReplay.nrets MuXferReplay.last_ret_ok MuXferReplay.xferred_of MuXferReplay.reacq_out MuXferReplay.xn_rec_of
   Consts.MU_SPINLOCK Consts.CV_NON_EMPTY.
